@@ -1,8 +1,9 @@
-"""C05 helpers, part 2: the real radicale.auth.htpasswd.Auth (through BaseAuth.login, login cache off)
-on generated files that are edited between attempts, and the encoders for Model/C05Run.v `hcase`.
+"""C05 helpers, part 2: the real radicale.auth.htpasswd.Auth (through BaseAuth.login, login cache off or -- cfg["cl"] --
+on, under a logical clock) on generated files that are edited between attempts, and the encoders for Model/C05Run.v `hcase`.
 passlib / bcrypt are asked for every (scheme, digest, password) the model may ask for; the answers are
 handed to the model as a table (`hc_verify`)."""
 import os
+import random
 import sys
 
 from vlib import core, impl  # noqa: F401  (impl puts the repo on sys.path)
@@ -141,10 +142,39 @@ def gen_text(rng, pool, truth, nmax=7):
     return text
 
 
+S_NS = 10 ** 9
+CLOCK_T0 = 1_700_000_000 * S_NS
+STEP_SAME_FILE_NS = 1 * S_NS          # well inside both lifetimes of the login cache (defaults 15 s / 90 s): cache hits happen
+STEP_FILE_CHANGED_NS = 1000 * S_NS    # beyond both lifetimes: every entry of the login cache has expired
+
+
+class Clock:
+    """Stands in for the `time` module as seen by radicale.auth (BaseAuth.login: time_ns, sleep) while a history with
+    the login cache on is run.  Rule (the hypothesis of C17_transparent made true by construction): the clock advances by
+    STEP_FILE_CHANGED_NS before an attempt whose htpasswd file differs from the previous attempt's, else by STEP_SAME_FILE_NS;
+    so whatever the login cache still holds was answered by the back-end for the file as it is now."""
+
+    def __init__(self, t):
+        self.t = t
+
+    def time_ns(self):
+        return self.t
+
+    def time(self):
+        return self.t / 1e9
+
+    def sleep(self, x):
+        pass
+
+
+def login_cache_on(cfg):
+    return bool(cfg.get("cl"))
+
+
 def make_auth(fn, cfg):
     c = config.load()
     c.update({"auth": {"type": "htpasswd", "htpasswd_filename": fn, "htpasswd_encryption": cfg["enc"],
-                       "htpasswd_cache": str(cfg["cache"]), "cache_logins": "False", "delay": "0",
+                       "htpasswd_cache": str(cfg["cache"]), "cache_logins": str(login_cache_on(cfg)), "delay": "0",
                        "lc_username": str(cfg["lc"]), "uc_username": str(cfg["uc"]), "strip_domain": str(cfg["sd"])}},
              "verif", privileged=True)
     saved = sys.modules.get("bcrypt")
@@ -175,6 +205,11 @@ def gen_case(rng, pool):
     case_map = rng.choice(["", "", "", "lc", "uc"])
     cfg = dict(enc=enc, cache=rng.random() < 0.5, lc=case_map == "lc", uc=case_map == "uc", sd=rng.random() < 0.3,
                module=rng.random() < 0.9)
+    # [auth] cache_logins: the gate asks BaseAuth.login, and with the option on a login cache sits between the gate and
+    # the htpasswd back-end.  drawn from a generator of its own so that the cache-less histories of a seed stay what they were
+    lrng = random.Random(rng.getrandbits(64))
+    cfg["cl"] = lrng.random() < 0.4
+    pending = None                  # the second half of a pair of attempts with equal login+password concatenation
     truth = []
     PREFER[0] = enc if enc != "autodetect" else None
     # start-up file: mostly clean (the server refuses to start otherwise)
@@ -200,8 +235,11 @@ def gen_case(rng, pool):
     steps = []
     cur = files[0]
     mt = 1000
-    for _ in range(rng.randint(2, 6)):
+    nsteps = rng.randint(2, 6) + (lrng.randint(0, 3) if cfg["cl"] else 0)
+    for _ in range(nsteps):
         op = rng.choice(["keep", "keep", "keep", "keep", "append", "append", "append-bcrypt", "append-bcrypt", "rewrite", "rewrite", "same-stamp", "touch", "remove", "garbage"])
+        if cfg["cl"] and lrng.random() < 0.5:
+            op = "keep"             # runs of attempts against one file version: that is when the login cache answers
         if cur.get("unreadable"):
             op = rng.choice(["keep", "restore", "rewrite", "fault-again"])
         elif cur["data"] is None or decode_file(cur["data"]) is False:
@@ -288,6 +326,23 @@ def gen_case(rng, pool):
             l, pw, h = rng.choice(truth)
         else:
             l, pw = rng.choice(LOGINS + ["", "@x", "nobody"]), rng.choice(PWS)
+        # equal concatenations cut at different places: ('alice','xyz') / ('alic','exyz') / ('alicex','yz') -- whatever is
+        # keyed or hashed from login and password together must keep them apart.  Either the re-cut of an earlier attempt
+        # of this history, or a pair (re-cut now, the original next), so that both orders occur.
+        if pending is not None:
+            l, pw = pending
+            pending = None
+        elif lrng.random() < (0.45 if cfg["cl"] else 0.1):
+            if steps and lrng.random() < 0.6:
+                _, l0, pw0 = lrng.choice(steps[-3:])
+                other = resplit(lrng, l0, pw0)
+                if other:
+                    l, pw = other
+            else:
+                other = resplit(lrng, l, pw)
+                if other:
+                    pending = (l, pw)
+                    l, pw = other
         steps.append((cur, l, pw))
     return dict(cfg=cfg, file0=files[0], steps=steps)
 
@@ -362,22 +417,47 @@ def run_case(case, workdir):
     case["verify"] = list(dict.fromkeys(table))
     case["lower"] = [(l, l.lower()) for l in logins]
     case["upper"] = [(l, l.upper()) for l in logins]
+    import time as real_time
+    clock = Clock(CLOCK_T0)
+    if login_cache_on(cfg):
+        auth.time = clock
     try:
-        a = make_auth(fn, cfg)
-    except Exception as e:
-        case["startup_error"] = "%s: %s" % (type(e).__name__, e)
-        FAULT["exc"] = None
-        return None
-    out = []
-    for f, l, pw in case["steps"]:
-        put_file(fn, f["data"], f["mtime"], f.get("unreadable"))
         try:
-            user, _info = a.login(l, pw)
-            out.append(("user", user) if user else ("fail",))
+            a = make_auth(fn, cfg)
         except Exception as e:
-            out.append(("raise", "%s: %s" % (type(e).__name__, e)))
-    FAULT["exc"] = None
-    return out
+            case["startup_error"] = "%s: %s" % (type(e).__name__, e)
+            FAULT["exc"] = None
+            return None
+        out = []
+        prev = case["file0"]
+        for f, l, pw in case["steps"]:
+            put_file(fn, f["data"], f["mtime"], f.get("unreadable"))
+            clock.t += STEP_SAME_FILE_NS if same_file(f, prev) else STEP_FILE_CHANGED_NS
+            prev = f
+            try:
+                user, _info = a.login(l, pw)
+                out.append(("user", user) if user else ("fail",))
+            except Exception as e:
+                out.append(("raise", "%s: %s" % (type(e).__name__, e)))
+        FAULT["exc"] = None
+        return out
+    finally:
+        auth.time = real_time
+
+
+def same_file(f, g):
+    return (f["data"], f["mtime"], f.get("unreadable")) == (g["data"], g["mtime"], g.get("unreadable"))
+
+
+def resplit(rng, l, pw):
+    """Another (login, password) pair with the SAME concatenation, cut at another place (None if there is none)."""
+    cat = l + pw
+    cuts = [j for j in range(len(cat) + 1) if j != len(l)]
+    if not cuts:
+        return None
+    near = [j for j in cuts if abs(j - len(l)) <= 2]
+    j = rng.choice(near) if near and rng.random() < 0.7 else rng.choice(cuts)
+    return cat[:j], cat[j:]
 
 
 # ------------------------------------------------------------------------------------ encoders
